@@ -31,6 +31,7 @@ type Op struct {
 	Fault   string
 	Applied bool
 	Size    int
+	Data    []byte // store ops: the stored bytes (shared, do not modify)
 }
 
 type Bucket struct {
@@ -84,8 +85,9 @@ func (b *Bucket) Get(name string) ([]byte, bool) {
 func (b *Bucket) Put(name string, data []byte) {
 	b.mu.Lock()
 	defer b.mu.Unlock()
-	b.blobs[name] = append([]byte(nil), data...)
-	b.record(Op{Kind: "store", By: "harness", Name: name, Fault: OK, Applied: true, Size: len(data)})
+	cp := append([]byte(nil), data...)
+	b.blobs[name] = cp
+	b.record(Op{Kind: "store", By: "harness", Name: name, Fault: OK, Applied: true, Size: len(data), Data: cp})
 }
 
 // Remove deletes a blob directly (external deletion).
@@ -248,8 +250,9 @@ func (h *Handle) Store(ctx context.Context, name string, data []byte) error {
 		h.b.record(Op{Kind: "store", By: h.inst, Name: name, Fault: f, Size: len(data)})
 		return ErrInjected
 	}
-	h.b.blobs[name] = append([]byte(nil), data...)
-	h.b.record(Op{Kind: "store", By: h.inst, Name: name, Fault: f, Applied: true, Size: len(data)})
+	cp := append([]byte(nil), data...)
+	h.b.blobs[name] = cp
+	h.b.record(Op{Kind: "store", By: h.inst, Name: name, Fault: f, Applied: true, Size: len(data), Data: cp})
 	if f == AppliedError {
 		return ErrInjected
 	}
